@@ -203,7 +203,10 @@ theorem appendBatch_P_C5b (es : List (LogId × Bytes)) :
           (fun e he => hsm e (List.mem_cons_of_mem _ he))
           (fun e he => hwf e (List.mem_cons_of_mem _ he))
       refine ⟨seg2, s2, e2, ?_, ?_⟩
-      · unfold Store.appendBatch
+      · have hidxD12 : id.index + 1 ≠ U64 := by
+          have : id.index + 1 < U64 := hsm (id, p) List.mem_cons_self
+          omega
+        rw [appendBatch_cons_small_D12 _ _ _ _ _ _ _ hidxD12]
         rw [heq1]
         simp only
         exact heq2
@@ -282,7 +285,10 @@ theorem call_P_C5b {s : Store} {fs : Fs} {w : Worker} {r r' : RefLog} {W : List 
         (by rw [← hde]; exact hds)) hidwf rfl
   | purge upto =>
     have hnn := hnp upto rfl
-    simp only [Store.call]
+    have hidxD12 : upto.index + 1 ≠ U64 := by
+      have : upto.index + 1 < U64 := hsm
+      omega
+    simp only [Store.call, if_neg hidxD12]
     rw [nextIndexChecked_eq h.inv.abs.pf.purged]
     simp only [hpu]
     simp only [RefLog.call] at hc
